@@ -63,10 +63,13 @@ def run_lines(exe, lines, timeout=150, env=None, mem_limit=None):
     e = dict(os.environ); e['ASAN_OPTIONS'] = 'detect_leaks=0:abort_on_error=0'; e['UBSAN_OPTIONS'] = 'print_stacktrace=1'
     if env: e.update(env)
     try:
-        pre = None
-        if mem_limit:
-            import resource
-            pre = lambda: resource.setrlimit(resource.RLIMIT_AS, (mem_limit, mem_limit))
+        import resource
+        def pre():
+            if mem_limit: resource.setrlimit(resource.RLIMIT_AS, (mem_limit, mem_limit))
+            if isinstance(exe, str) and exe.endswith('modeldrv'):
+                # the extracted model recurses structurally over byte lists (hundreds of kilobytes for real memory images)
+                try: resource.setrlimit(resource.RLIMIT_STACK, (resource.RLIM_INFINITY, resource.RLIM_INFINITY))
+                except (ValueError, OSError): pass
         r = subprocess.run([exe] if isinstance(exe, str) else exe, preexec_fn=pre, input=inp, stdout=subprocess.PIPE, stderr=subprocess.PIPE, universal_newlines=True, timeout=timeout, env=e, errors='replace')
     except subprocess.TimeoutExpired as ex:
         so = ex.stdout or ''
